@@ -98,6 +98,7 @@ type visitor struct {
 	taint      map[types.Object]bool
 	guard      string
 	guardR     bool
+	onceAfter  string
 	eq         string
 	seenLits   map[*ast.FuncLit]bool
 	allowGo    bool
@@ -501,6 +502,19 @@ func (v *visitor) call(c *ast.CallExpr) {
 			switch {
 			case n == "sync.WaitGroup":
 				v.specialRecv(f.X, kWG, f.Sel.Name)
+			case n == "sync.Once" && f.Sel.Name == "Do" && len(c.Args) == 1:
+				// the function literal runs exactly once, before any other Do of the same Once returns
+				v.specialRecv(f.X, kSync, "sync.Once.Do")
+				if fl, ok := c.Args[0].(*ast.FuncLit); ok {
+					g, gr := v.guard, v.guardR
+					v.guard, v.guardR = "sync.Once("+exprText(f.X)+")", false
+					v.funcLit(fl, false)
+					v.guard, v.guardR = g, gr
+					// whoever returns from Do has seen the literal's effects: the rest of this statement list is ordered
+					// after them
+					v.onceAfter = "sync.Once(" + exprText(f.X) + ")"
+					return
+				}
 			case rt != nil && syncObject(rt) != "":
 				v.specialRecv(f.X, kSync, syncObject(rt)+"."+f.Sel.Name)
 			default:
@@ -669,6 +683,10 @@ func (v *visitor) stmts(list []ast.Stmt) {
 			continue
 		}
 		v.stmt(s)
+		if v.onceAfter != "" {
+			v.guard, v.guardR = v.onceAfter, false
+			v.onceAfter = ""
+		}
 	}
 	v.guard, v.guardR = saved, savedR
 }
